@@ -191,13 +191,133 @@ theorem empty_block_keeps_tally (c : Ctx) (hvl : c.votesLast = true) (s : St) (g
   rw [h]
   exact (finalize_keeps_tally_partial c hvl _ s V x hx0 hc dep hdep hnr htally).1
 
+/-! ### blocks of transfers: the guard of `finalize_keeps_tally_partial` derived, and whole histories -/
+
+open LemoProofs.LedgerReward in
+/-- a transfer tx (successful or not is decided by `applySimple`) changes balances only -/
+theorem applySimple_transfer_frame (c : Ctx) (s s' : St) (gp gp' g : Nat) (t : Tx) (to : Nat) (v : Int)
+    (hk : t.kind = .transfer to v) (h : applySimple c s gp t = .ok (s', gp', g)) (x : Nat) :
+    sameButBal (s'.accts x) (s.accts x) := by
+  unfold applySimple at h
+  simp only at h
+  split at h; · cases h
+  split at h; · cases h
+  split at h; · cases h
+  split at h; · cases h
+  split at h; · cases h
+  split at h; · cases h
+  rename_i sb hb
+  injection h with h
+  injection h with h1 _
+  subst h1
+  have hbody : sameButBal (sb.accts x) ((setBal s t.payer ((s.accts t.payer).bal - (t.gasLimit : Int) * t.gasPrice)).accts x) := by
+    unfold body at hb
+    simp only [hk] at hb
+    split at hb; · cases hb
+    split at hb
+    · injection hb with hb; subst hb; exact sameButBal_refl _
+    · injection hb with hb; subst hb; exact transfer_sameButBal _ _ _ _ x
+  exact sameButBal_trans (setBal_sameButBal _ _ _ x) (sameButBal_trans hbody (setBal_sameButBal _ _ _ x))
+
+/-- every candidate tx of the list is a plain transfer -/
+def TransferOnly (txs : List Tx) : Prop := ∀ t ∈ txs, ∃ to v, t.kind = .transfer to v
+
+open LemoProofs.LedgerReward in
+/-- **mine_transfers_frame**: whatever the miner selects or discards from a list of transfers (any gas pool), nobody's
+    votes, voteFor, candidacy flag, deposit, income address or signers change — only balances. -/
+theorem mine_transfers_frame (c : Ctx) : ∀ (txs : List Tx) (s : St) (gp : Nat), TransferOnly txs →
+    ∀ x, sameButBal ((mine c s gp txs).st.accts x) (s.accts x) := by
+  intro txs
+  induction txs with
+  | nil => intro s gp _ x; simp only [mine]; exact sameButBal_refl _
+  | cons t ts ih =>
+    intro s gp htr x
+    have htr' : TransferOnly ts := fun y hy => htr y (List.mem_cons_of_mem _ hy)
+    obtain ⟨to, v, hk⟩ := htr t List.mem_cons_self
+    unfold mine
+    by_cases hg : gp < LemoGen.Gas.OrdinaryTxGas
+    · simp only [hg, if_true]; exact sameButBal_refl _
+    · simp only [hg, if_false]
+      have hnb : applyTx c s gp t = applySimple c s gp t := by
+        unfold applyTx; rw [hk]
+      rw [hnb]
+      cases ha : applySimple c s gp t with
+      | error e =>
+        obtain ⟨e, gp'⟩ := e
+        simp only []
+        exact ih s gp' htr' x
+      | ok r =>
+        obtain ⟨s1, gp1, g1⟩ := r
+        simp only []
+        exact sameButBal_trans (ih s1 gp1 htr' x) (applySimple_transfer_frame c s s1 gp gp1 g1 t to v hk ha x)
+
+open LemoProofs.LedgerReward in
+/-- **transfer_block_keeps_tally**: the per-block invariant WITHOUT a hypothesis about the post-transaction state:
+    if the tally of a registered candidate `x` (deposit `dep`, not on the refund list) is exact when a block begins,
+    and the block's candidate transactions are transfers (any number, valid or failing, any gas limit, any fee, any
+    height — reward blocks with salaries and refunds included), the tally is exact when the block ends, and `x` is
+    still registered with the same deposit. -/
+theorem transfer_block_keeps_tally (c : Ctx) (hvl : c.votesLast = true) (s : St) (gp : Nat) (txs : List Tx)
+    (htr : TransferOnly txs) (V : List Nat)
+    (x : Nat) (hx0 : x ≠ 0) (hc : (s.accts x).isCand = 1) (dep : Int) (hdep : (s.accts x).deposit = some dep)
+    (hnr : x ∉ c.rf.refunds)
+    (htally : (s.accts x).votes = dep / c.p.depositRate +
+        voterSum c.p.voteRate (fun v => (s.accts v).voteFor) (fun v => (s.accts v).bal) x V) :
+    ((mineBlock c s gp txs V).1.accts x).votes = dep / c.p.depositRate +
+        voterSum c.p.voteRate (fun v => ((mineBlock c s gp txs V).1.accts v).voteFor)
+          (fun v => ((mineBlock c s gp txs V).1.accts v).bal) x V ∧
+    ((mineBlock c s gp txs V).1.accts x).isCand = 1 ∧ ((mineBlock c s gp txs V).1.accts x).deposit = some dep := by
+  have hfr : ∀ y, sameButBal ((chargeForGas (mine c s gp txs).st c.miner (mine c s gp txs).fee).accts y) (s.accts y) :=
+    fun y => sameButBal_trans (chargeForGas_sameButBal _ _ _ y) (mine_transfers_frame c txs s gp htr y)
+  have h : (mineBlock c s gp txs V).1 =
+      finalize c (fun a => (s.accts a).bal) (chargeForGas (mine c s gp txs).st c.miner (mine c s gp txs).fee) V := rfl
+  rw [h]
+  apply finalize_keeps_tally_partial c hvl _ _ V x hx0
+  · rw [(hfr x).1.2.2.1]; exact hc
+  · rw [(hfr x).2]; exact hdep
+  · exact hnr
+  · rw [(hfr x).1.2.1, htally]
+    congr 1
+    exact voterSum_congr _ _ _ _ _ x (fun v => ((hfr v).1.1).symm) (fun _ => rfl) V
+
+/-- a history: blocks (context, gas limit, candidate txs) executed one after the other on the miner path -/
+def runBlocks (V : List Nat) : St → List (Ctx × Nat × List Tx) → St
+  | s, [] => s
+  | s, (c, gp, txs) :: bs => runBlocks V (mineBlock c s gp txs V).1 bs
+
+/-- **transfer_history_keeps_tally**: induction over histories — any number of blocks of transfers, at any heights
+    (reward blocks included), with any reward facts that never list `x` for a refund: a tally that is exact at the
+    beginning is exact after every block of the history. -/
+theorem transfer_history_keeps_tally (V : List Nat) (p : Params) (x : Nat) (hx0 : x ≠ 0) (dep : Int) :
+    ∀ (bs : List (Ctx × Nat × List Tx)) (s : St),
+    (∀ b ∈ bs, b.1.votesLast = true ∧ b.1.p = p ∧ TransferOnly b.2.2 ∧ x ∉ b.1.rf.refunds) →
+    (s.accts x).isCand = 1 → (s.accts x).deposit = some dep →
+    (s.accts x).votes = dep / p.depositRate +
+        voterSum p.voteRate (fun v => (s.accts v).voteFor) (fun v => (s.accts v).bal) x V →
+    ((runBlocks V s bs).accts x).votes = dep / p.depositRate +
+        voterSum p.voteRate (fun v => ((runBlocks V s bs).accts v).voteFor)
+          (fun v => ((runBlocks V s bs).accts v).bal) x V := by
+  intro bs
+  induction bs with
+  | nil => intro s _ _ _ h; exact h
+  | cons b bs ih =>
+    intro s hall hc hdep htally
+    obtain ⟨c, gp, txs⟩ := b
+    obtain ⟨hvl, hp, htr, hnr⟩ := hall (c, gp, txs) List.mem_cons_self
+    simp only at hvl hp htr hnr
+    subst hp
+    obtain ⟨h1, h2, h3⟩ := transfer_block_keeps_tally c hvl s gp txs htr V x hx0 hc dep hdep hnr htally
+    simp only [runBlocks]
+    exact ih _ (fun b hb => hall b (List.mem_cons_of_mem _ hb)) h2 h3 h1
+
 /-! ### single transactions -/
 
 /-- **revote_moves_weight**: a successful vote tx by `voter` (balance-before-tx `ib`, weight
-    ex = ⌊ib/200 LEMO⌋ > 0) from a still-registered old candidate to a new one moves exactly `ex`. -/
+    ex = ⌊ib/200 LEMO⌋ > 0) from a still-registered old candidate to a new one moves exactly `ex`
+    (the voter may itself be the old or the new candidate). -/
 theorem revote_moves_weight (c : Ctx) (s s' : St) (voter old cand : Nat) (ib : Int)
     (hold : (s.accts voter).voteFor = old) (ho0 : old ≠ 0) (hoc : (s.accts old).isCand = 1)
-    (hne : old ≠ cand) (hvo : voter ≠ old) (hvc : voter ≠ cand) (hex : 0 < ib / c.p.voteRate)
+    (hne : old ≠ cand) (hex : 0 < ib / c.p.voteRate)
     (h : doVote c s voter cand ib = .ok s') :
     (s'.accts old).votes = (s.accts old).votes - ib / c.p.voteRate ∧
     (s'.accts cand).votes = (s.accts cand).votes + ib / c.p.voteRate ∧
@@ -210,15 +330,20 @@ theorem revote_moves_weight (c : Ctx) (s s' : St) (voter old cand : Nat) (ib : I
   have hex' : ¬ ib / c.p.voteRate ≤ 0 := by omega
   simp only [hex', if_false, hold, ne_eq, ho0, not_false_eq_true, hoc, and_self, if_true]
   refine ⟨?_, ?_, ?_⟩
-  · simp [modAcct, upd, hne, Ne.symm hvo]
-  · simp [modAcct, upd, hne, Ne.symm hne, Ne.symm hvc]
+  · by_cases e1 : voter = old
+    · subst e1; simp [modAcct, upd, hne, Ne.symm hne]
+    · simp [modAcct, upd, hne, Ne.symm hne, e1, Ne.symm e1]
+  · by_cases e1 : voter = cand
+    · subst e1; simp [modAcct, upd, hne, Ne.symm hne]
+    · simp [modAcct, upd, hne, Ne.symm hne, e1, Ne.symm e1]
   · simp [modAcct, upd]
 
-/-- **register_sets_deposit_votes** -/
-theorem register_sets_deposit_votes (c : Ctx) (s s' : St) (fr : Nat) (amt : Int) (inc : Nat)
+/-- **register_sets_deposit_votes**: a successful FIRST registration sets votes := ⌊deposit/100 LEMO⌋ and stores the
+    deposit — and stores the tx's isCandidate flag AS IT IS, whatever it says (the handler never looks at it). -/
+theorem register_sets_deposit_votes (c : Ctx) (s s' : St) (fr : Nat) (amt : Int) (flag inc : Nat) (nd : Bool)
     (h0 : (s.accts fr).isCand = 0) (hp : fr ≠ c.p.pool)
-    (h : doRegister c s fr amt false inc = .ok s') :
-    (s'.accts fr).votes = amt / c.p.depositRate ∧ (s'.accts fr).isCand = 1 ∧ (s'.accts fr).deposit = some amt := by
+    (h : doRegister c s fr amt flag inc nd = .ok s') :
+    (s'.accts fr).votes = amt / c.p.depositRate ∧ (s'.accts fr).isCand = flag ∧ (s'.accts fr).deposit = some amt := by
   unfold doRegister at h
   simp only [h0, if_true] at h
   split at h; · cases h
@@ -226,13 +351,14 @@ theorem register_sets_deposit_votes (c : Ctx) (s s' : St) (fr : Nat) (amt : Int)
   injection h with h; subst h
   simp [modAcct, upd, transfer, setBal, hp, Ne.symm hp]
 
-/-- **unregister_zeroes** -/
-theorem unregister_zeroes (c : Ctx) (s s' : St) (fr : Nat) (amt : Int) (inc : Nat)
-    (h1 : (s.accts fr).isCand = 1) (h : doRegister c s fr amt true inc = .ok s') :
+/-- **unregister_zeroes**: the unregistration of a REGISTERED candidate (stored flag "true", tx flag "false") -/
+theorem unregister_zeroes (c : Ctx) (s s' : St) (fr : Nat) (amt : Int) (inc : Nat) (nd : Bool)
+    (h1 : (s.accts fr).isCand = 1) (h : doRegister c s fr amt 2 inc nd = .ok s') :
     (s'.accts fr).votes = 0 ∧ (s'.accts fr).isCand = 2 := by
   unfold doRegister at h
   simp only [h1] at h
-  simp only [show ¬ (1 : Nat) = 0 by decide, show ¬ (1 : Nat) = 2 by decide, if_false, if_true] at h
+  simp only [show ¬ (1 : Nat) = 0 by decide, show ¬ (1 : Nat) = 2 by decide, if_false, if_true,
+    ne_eq, not_true_eq_false] at h
   split at h
   · injection h with h; subst h; simp [modAcct, upd]
   · split at h
@@ -243,6 +369,25 @@ theorem unregister_zeroes (c : Ctx) (s s' : St) (fr : Nat) (amt : Int) (inc : Na
       · simp [modAcct, upd]
       · simp only [modAcct, upd, setBal]
         by_cases e : fr = c.p.pool <;> simp [e]
+
+/-- **topup_adds_floor_difference**: a successful update tx of a registered candidate with amount > 0 adds the amount
+    to the stored deposit and exactly ⌊new/100 LEMO⌋ − ⌊old/100 LEMO⌋ to its votes (the code adds the difference only
+    when it is positive; with a positive rate it is never negative) — and overwrites the stored flag with the tx's. -/
+theorem topup_adds_floor_difference (c : Ctx) (s s' : St) (fr : Nat) (amt : Int) (flag inc : Nat) (nd : Bool) (old : Int)
+    (hr : 0 < c.p.depositRate) (h1 : (s.accts fr).isCand = 1) (hf : flag ≠ 2) (ha : 0 < amt)
+    (hd : (s.accts fr).deposit = some old) (hp : fr ≠ c.p.pool)
+    (h : doRegister c s fr amt flag inc nd = .ok s') :
+    (s'.accts fr).votes = (s.accts fr).votes + ((old + amt) / c.p.depositRate - old / c.p.depositRate) ∧
+    (s'.accts fr).deposit = some (old + amt) ∧ (s'.accts fr).isCand = flag := by
+  unfold doRegister at h
+  simp only [h1] at h
+  simp only [show ¬ (1 : Nat) = 0 by decide, show ¬ (1 : Nat) = 2 by decide, if_false, hf,
+    ne_eq, not_true_eq_false, ha, if_true, hd] at h
+  split at h; · cases h
+  injection h with h; subst h
+  have hmono : old / c.p.depositRate ≤ (old + amt) / c.p.depositRate := Int.ediv_le_ediv hr (by omega)
+  simp only [modAcct, upd, if_true, transfer, setBal, hp, Ne.symm hp, if_false, and_true]
+  split <;> omega
 
 /-! ### refutation of the full statement (kernel-checked witness) -/
 
@@ -270,6 +415,80 @@ theorem tally_refuted :
     (s'.accts 21).voteFor = 20 ∧ (s'.accts 21).bal = 250 ∧
     (s'.accts 20).votes = 12 ∧
     1000 / rp.depositRate + voterSum rp.voteRate (fun v => (s'.accts v).voteFor) (fun v => (s'.accts v).bal) 20 rU = 11 := by
+  decide
+
+/-! ### "no vote count is ever negative" — refuted on the code as it stands (kernel-checked witness) -/
+
+/-- candidate 20 (registered, deposit 0 like a genesis deputy, 0 votes), candidate 23 (deposit 1000, 10 votes), voter 21
+    with balance 150 voting for 20 (weight ⌊150/200⌋ = 0).  One block: 22 sends 100 to 21 (21 now holds 250), then 21
+    re-votes for 23: CallVoteTx takes ⌊250/200⌋ = 1 vote away from 20 — which never received it. -/
+def ns0 : St :=
+  { accts := fun a =>
+      if a = 20 then { isCand := 1, deposit := some 0, votes := 0, income := 20 }
+      else if a = 23 then { isCand := 1, deposit := some 1000, votes := 10, income := 23 }
+      else if a = 21 then { bal := 150, voteFor := 20 } else if a = 22 then { bal := 500 } else if a = 3 then { income := 4 } else {} }
+def ntx2 : Tx :=
+  { id := 2, sender := 21, payer := 21, gasLimit := 35000, gasPrice := 0, txType := 2, msgLen := 0, nzData := 0,
+    zData := 0, kind := .vote 23, fromSigners := some [21], payerSigners := some [] }
+def nU : List Nat := [1, 3, 4, 20, 21, 22, 23]
+
+/-- **negative_votes_refuted**: the tally of 20 is exact at block start (0 = 0/100 + ⌊150/200⌋); after the block the
+    MODEL's state — the same state the real engine computes — holds −1 votes for candidate 20. (The real miner then
+    panics while sealing: a negative big.Int cannot be RLP-encoded; the line-protocol driver prints `panic` for such a
+    block. The negative value is a fact about `mineBlock`, not about the driver.) Known finding c11/negative-votes. -/
+theorem negative_votes_refuted :
+    (ns0.accts 20).votes = 0 / rp.depositRate + voterSum rp.voteRate (fun v => (ns0.accts v).voteFor) (fun v => (ns0.accts v).bal) 20 nU ∧
+    (mineBlock rctx ns0 100000000 [rtx1, ntx2] nU).2.1 = [(1, 21000), (2, 35000)] ∧
+    ((mineBlock rctx ns0 100000000 [rtx1, ntx2] nU).1.accts 20).votes = -1 ∧
+    ((mineBlock rctx ns0 100000000 [rtx1, ntx2] nU).1.accts 23).votes = 12 := by
+  decide
+
+/-! ### "an unregistered candidate has zero votes" — refuted: the isCandidate flag of a RegisterTx is never validated -/
+
+/-- account 10 (never registered, balance 5000); pool = 1; registration txs with deposit 2000 / 3000 (gas is free here) -/
+def fs0 : St :=
+  { accts := fun a => if a = 10 then { bal := 9000 } else if a = 11 then { bal := 900 } else if a = 3 then { income := 4 } else {} }
+def fReg (id : Nat) (amt : Int) (flag : Nat) : Tx :=
+  { id := id, sender := 10, payer := 10, gasLimit := 200000, gasPrice := 0, txType := 3, msgLen := 0, nzData := 0,
+    zData := 0, kind := .register amt flag 0, fromSigners := some [10], payerSigners := some [] }
+def fVote : Tx :=
+  { id := 9, sender := 11, payer := 11, gasLimit := 35000, gasPrice := 0, txType := 2, msgLen := 0, nzData := 0,
+    zData := 0, kind := .vote 10, fromSigners := some [11], payerSigners := some [] }
+def fU : List Nat := [1, 3, 4, 10, 11]
+
+/-- **unregistered_has_votes_refuted**: a FIRST RegisterTx that says isCandidate:"false" (flag 2) with a sufficient deposit
+    is executed by `registerCandidate` like any registration: the account ends up UNREGISTERED (flag "false": it cannot be
+    voted for, cannot register again, its deposit is refunded in the next reward block) WITH 20 deposit votes — which it
+    keeps for ever (nothing ever resets them), and with which the store's ranking can elect it. -/
+theorem unregistered_has_votes_refuted :
+    (mineBlock rctx fs0 100000000 [fReg 1 2000 2] fU).2.1 = [(1, 92000)] ∧
+    ((mineBlock rctx fs0 100000000 [fReg 1 2000 2] fU).1.accts 10).isCand = 2 ∧
+    ((mineBlock rctx fs0 100000000 [fReg 1 2000 2] fU).1.accts 10).votes = 20 ∧
+    ((mineBlock rctx fs0 100000000 [fReg 1 2000 2] fU).1.accts 10).deposit = some 2000 := by
+  decide
+
+/-- **blank_flag_refuted**: with isCandidate:"" (flag 0) the registration is executed, but the stored flag reads as "never
+    registered": the account holds 20 votes without being a candidate, and can go through the FIRST-registration path again —
+    the second deposit (3000) overwrites the recorded one, the first 2000 stay in the pool (5000) unrecorded: no refund
+    will ever return them. -/
+theorem blank_flag_refuted :
+    ((mineBlock rctx fs0 100000000 [fReg 1 2000 0] fU).1.accts 10).isCand = 0 ∧
+    ((mineBlock rctx fs0 100000000 [fReg 1 2000 0] fU).1.accts 10).votes = 20 ∧
+    (mineBlock rctx fs0 100000000 [fReg 1 2000 0, fReg 2 3000 1] fU).2.1 = [(1, 92000), (2, 92000)] ∧
+    ((mineBlock rctx fs0 100000000 [fReg 1 2000 0, fReg 2 3000 1] fU).1.accts 10).deposit = some 3000 ∧
+    ((mineBlock rctx fs0 100000000 [fReg 1 2000 0, fReg 2 3000 1] fU).1.accts 1).bal = 5000 := by
+  decide
+
+/-- **flag_overwritten_by_update_refuted**: an UPDATE tx of a registered candidate copies its flag over the stored one
+    (`modifyCandidateInfo` copies every key but nodeID / deposit). With an arbitrary string (flag 3) the account is still
+    accepted as a candidate by CallVoteTx (11's vote is executed) but the vote pass and re-votes only know "true": its count
+    is frozen; and RegisterOrUpdateToCandidate answers ErrIsCandidate from now on — it can never top up, unregister or be
+    refunded (the third tx is discarded). -/
+theorem flag_overwritten_by_update_refuted :
+    (mineBlock rctx fs0 100000000 [fReg 1 2000 1, fReg 2 0 3, fVote, fReg 3 0 2] fU).2.1 = [(1, 92000), (2, 92000), (9, 35000)] ∧
+    (mineBlock rctx fs0 100000000 [fReg 1 2000 1, fReg 2 0 3, fVote, fReg 3 0 2] fU).2.2.1 = [(3, "ErrIsCandidate")] ∧
+    ((mineBlock rctx fs0 100000000 [fReg 1 2000 1, fReg 2 0 3, fVote, fReg 3 0 2] fU).1.accts 10).isCand = 3 ∧
+    ((mineBlock rctx fs0 100000000 [fReg 1 2000 1, fReg 2 0 3, fVote, fReg 3 0 2] fU).1.accts 11).voteFor = 10 := by
   decide
 
 /-! ### the order of the steps of Finalize matters (kernel-checked witness) -/
